@@ -100,7 +100,7 @@ func zzChildStep(private bool, k *ExtendedKey, i uint32) {
 	vReach("derived")
 }
 
-var zzLongSeeds = []int{127, 128, 129, 255, 256, 257, 272, 288, 320, 511, 512, 528, 576, 65552, 65600}
+var zzLongSeeds = []int{127, 128, 129, 255, 256, 257, 272, 288, 320, 511, 512, 528, 576}
 
 // ZZ_C04_master: seed length bounds and master key layout.
 func ZZ_C04_master() {
